@@ -427,6 +427,15 @@ class RaggedRun:
         o = op['o']
         self.stepno += 1
         ra, m = self.ra, self.m
+        if self.siblings and not getattr(self, 'in_ctx', False):
+            # the oracles open fresh handles on the array under test; make a sibling the most recently constructed object again,
+            # so that the step starts in the state 'another array was opened last'
+            h_, sp_, sdt_, sat_, smodel_ = self.siblings[-1]
+            try:
+                self.siblings[-1] = (darr.RaggedArray(sp_), sp_, sdt_, sat_, smodel_)
+            except Exception as e:
+                self.out.viol('read-raised', 'sibling-array', f'{type(e).__name__}: {e}')
+                return False
         if o == 'append':
             if self.mode == 'r':
                 return True
